@@ -147,10 +147,24 @@ theorem interAssign_eq_inter (c d : Interval ℝ) : c.interAssign d = c.inter d 
     ltb_false_of_eq, gtb_false_of_eq, ltb_false_of_gt, gtb_false_of_lt, eqb_false_of_ne, ne_of_lt, ne_of_gt] <;>
   (split_ifs with h1 h2 <;> first | rfl | (exfalso; linarith) | (congr 1; linarith))
 
+theorem finiteLowerBound_iff (c : Interval ℝ) : c.finiteLowerBound = true ↔ c.lo.toEReal ≠ ⊥ := by
+  unfold finiteLowerBound
+  rw [Bound.gtb_iff, Bound.toEReal_negInf, bot_lt_iff_ne_bot]
+
+theorem finiteUpperBound_iff (c : Interval ℝ) : c.finiteUpperBound = true ↔ c.hi.toEReal ≠ ⊤ := by
+  unfold finiteUpperBound
+  rw [Bound.ltb_iff, Bound.toEReal_posInf, lt_top_iff_ne_top]
+
 theorem isEmpty_iff_cond (c : Interval ℝ) : c.isEmpty = true ↔
-    (c.hi.toEReal < c.lo.toEReal ∨ (c.lo.toEReal = c.hi.toEReal ∧ (c.inclLo = false ∨ c.inclHi = false))) := by
+    (c.hi.toEReal < c.lo.toEReal ∨
+      (c.lo.toEReal = c.hi.toEReal ∧
+        (c.inclLo = false ∨ c.inclHi = false ∨ c.lo.toEReal = ⊥ ∨ c.hi.toEReal = ⊤))) := by
+  have h1 := finiteLowerBound_iff c
+  have h2 := finiteUpperBound_iff c
   unfold isEmpty
-  simp [Bound.gtb_iff, Bound.eqb_iff]
+  cases hl : c.finiteLowerBound <;> cases hu : c.finiteUpperBound <;>
+    cases c.inclLo <;> cases c.inclHi <;>
+    simp_all [Bound.gtb_iff, Bound.eqb_iff]
 
 /-- a non-empty interval: `lo ≤ hi`, and both ends included when `lo = hi` -/
 theorem not_isEmpty_cond (c : Interval ℝ) (h : ¬ c.isEmpty = true) :
@@ -162,6 +176,25 @@ theorem not_isEmpty_cond (c : Interval ℝ) (h : ¬ c.isEmpty = true) :
   apply h2
   refine ⟨heq, ?_⟩
   cases ha : c.inclLo <;> cases hb : c.inclHi <;> simp_all
+
+/-- … and the common point is then a finite number -/
+theorem not_isEmpty_finite (c : Interval ℝ) (h : ¬ c.isEmpty = true) (heq : c.lo.toEReal = c.hi.toEReal) :
+    ∃ x : ℝ, c.lo = .fin x ∧ c.hi = .fin x := by
+  rw [isEmpty_iff_cond] at h
+  obtain ⟨-, h2⟩ := not_or.1 h
+  have h3 : ¬ (c.lo.toEReal = ⊥ ∨ c.hi.toEReal = ⊤) := fun hh => h2 ⟨heq, Or.inr (Or.inr hh)⟩
+  obtain ⟨a, b⟩ := not_or.1 h3
+  cases hl : c.lo with
+  | negInf => rw [hl] at a; exact absurd rfl a
+  | posInf => rw [hl] at heq; exact absurd heq.symm b
+  | fin x =>
+    cases hh : c.hi with
+    | negInf => rw [hl, hh] at heq; simp at heq
+    | posInf => rw [hh] at b; exact absurd rfl b
+    | fin y =>
+      rw [hl, hh] at heq
+      simp only [Bound.toEReal_fin, EReal.coe_eq_coe_iff] at heq
+      exact ⟨x, rfl, by rw [heq]⟩
 
 end Interval
 end Bpp
